@@ -86,23 +86,69 @@ def C06_structure_preserved_full : Prop :=
 def sDiv : Str := ['d','i','v']
 def sImg : Str := ['i','m','g']
 
+/-- `</script><img src=x onerror=alert(1)><script>` -/
+def payloadScript : Str :=
+  ['<','/','s','c','r','i','p','t','>','<','i','m','g',' ','s','r','c','=','x',' ',
+   'o','n','e','r','r','o','r','=','a','l','e','r','t','(','1',')','>','<','s','c','r','i','p','t','>']
+
+/-- F-C06-1: a string child of `<script>` (likewise `style`, `noscript`) is emitted unescaped; it
+closes the element and the document gains an `<img onerror=…>` element that no view contains. -/
+theorem C06_raw_text_child_witness :
+    shapeKids [[]] [.elem tScript [] [.text payloadScript]] = true ∧
+    parse (toHtml [.elem tScript [] [.text payloadScript]]) =
+      some [.elem tScript [] [],
+            .elem sImg [(['s','r','c'], ['x']),
+                        (['o','n','e','r','r','o','r'], ['a','l','e','r','t','(','1',')'])] [],
+            .elem tScript [] []] ∧
+    structureOf [.elem tScript [] [.text payloadScript]] =
+      [.elem tScript [] [.text payloadScript]] := by
+  decide
+
 /-- `</textarea><img src=x onerror=alert(1)><textarea>` -/
 def payloadTextarea : Str :=
   ['<','/','t','e','x','t','a','r','e','a','>','<','i','m','g',' ','s','r','c','=','x',' ',
    'o','n','e','r','r','o','r','=','a','l','e','r','t','(','1',')','>','<','t','e','x','t','a','r','e','a','>']
 
-/-- F-C06-1: a string child of `<textarea>` is emitted unescaped; it closes the element and the
-document gains an `<img onerror=…>` element that no view contains. -/
-theorem C06_raw_text_child_witness :
-    shapeKids [[]] [.elem tTextarea [] [.text payloadTextarea]] = true ∧
-    parse (toHtml [.elem tTextarea [] [.text payloadTextarea]]) =
+/-- regression witness, `<textarea>` before hooks/fix-c06-3.patch (`textareaBody false _` = the children
+as they are): the string closes the textarea and injects an element; `&lt;` reads back as `<` -/
+theorem C06_textarea_old_witness :
+    parse (['<','t','e','x','t','a','r','e','a','>'] ++ textareaBody false false payloadTextarea ++
+        ['<','/','t','e','x','t','a','r','e','a','>']) =
       some [.elem tTextarea [] [],
             .elem sImg [(['s','r','c'], ['x']),
                         (['o','n','e','r','r','o','r'], ['a','l','e','r','t','(','1',')'])] [],
             .elem tTextarea [] []] ∧
-    structureOf [.elem tTextarea [] [.text payloadTextarea]] =
-      [.elem tTextarea [] [.text payloadTextarea]] := by
+    parse (['<','t','e','x','t','a','r','e','a','>'] ++ textareaBody false false ['&','l','t',';'] ++
+        ['<','/','t','e','x','t','a','r','e','a','>']) = some [.elem tTextarea [] [.text ['<']]] := by
   decide
+
+/-- regression witness for hooks/fix-c06-4.patch: without the doubled line feed a value that starts
+with one loses it -/
+theorem C06_textarea_lf_old_witness :
+    parse (['<','t','e','x','t','a','r','e','a','>'] ++ textareaBody true false [cLf, 'a'] ++
+        ['<','/','t','e','x','t','a','r','e','a','>']) = some [.elem tTextarea [] [.text ['a']]] := by
+  decide
+
+/-- **textarea, repaired** (fix-c06-3 + fix-c06-4): every string without NUL/CR as the child of a
+`<textarea>` comes back as exactly that string: it cannot end the element, references in it are not
+decoded, a leading line feed survives -/
+theorem C06_textarea_child (s : Str) (hs : clean s = true) :
+    parse (['<','t','e','x','t','a','r','e','a','>'] ++ textareaBody true true s ++
+        ['<','/','t','e','x','t','a','r','e','a','>']) = some [.elem tTextarea [] (textTree s)] := by
+  have hopen : run ⟨.text, [rootFrame]⟩ ['<','t','e','x','t','a','r','e','a','>'] =
+      some ⟨.textSkipLf, [⟨tTextarea, [], []⟩, rootFrame]⟩ := by
+    have h := run_startTag (st := [rootFrame]) (tag := tTextarea) (attrs := []) (by decide) (by decide) (by decide)
+    have e : ('<' :: tTextarea ++ attrsHtml [] ++ ['>']) = ['<','t','e','x','t','a','r','e','a','>'] := by decide
+    rw [e] at h
+    rw [h]
+    rfl
+  have hbody := run_textareaBody s hs [] rootFrame []
+  unfold parse initState
+  rw [List.append_assoc, run_append, hopen, Option.bind_some]
+  have e2 : ('<' :: '/' :: tTextarea ++ ['>']) = ['<','/','t','e','x','t','a','r','e','a','>'] := by decide
+  rw [e2] at hbody
+  rw [hbody]
+  simp [finish, rootFrame]
 
 /-- the same through `noscript`, `style` and `script` -/
 theorem C06_raw_text_child_witness_others :
@@ -130,7 +176,7 @@ theorem C06_cr_witness :
 
 theorem C06_structure_preserved_full_false : ¬ C06_structure_preserved_full := by
   intro h
-  have := h [.elem tTextarea [] [.text payloadTextarea]] C06_raw_text_child_witness.1
+  have := h [.elem tScript [] [.text payloadScript]] C06_raw_text_child_witness.1
   rw [C06_raw_text_child_witness.2.1, C06_raw_text_child_witness.2.2] at this
   revert this
   decide
@@ -308,23 +354,28 @@ theorem vwf_of_shape_node : (n : VNode) → ∀ (anc : List Str), vShapeNode anc
     have hao := attrsOK_of attrs hattrs hc.1
     simp only [vwfNode, Bool.and_eq_true, Bool.or_eq_true, hao, hnest, true_and]
     rcases hcase with ((⟨hg, hk⟩ | hv) | ⟨⟨hraw, hesc⟩, hleaf⟩) | ⟨ht, hts⟩
-    · exact Or.inl (Or.inl (Or.inl ⟨hg, vwf_of_shape_kids kids (tag :: anc) hk hc.2 hr.2⟩))
-    · exact Or.inl (Or.inl (Or.inr hv))
+    · exact Or.inl (Or.inl (Or.inl (Or.inl ⟨hg, vwf_of_shape_kids kids (tag :: anc) hk hc.2 hr.2⟩)))
+    · exact Or.inl (Or.inl (Or.inl (Or.inr hv)))
     · have hesc' : escapeChildren tag = false := by simpa using hesc
-      have hnt : vHasTextKids kids = false := by
-        rcases hr.1 with h | h
-        · rw [hesc'] at h; exact absurd h (by simp)
-        · simpa using h
-      refine Or.inl (Or.inr ⟨hraw, ?_⟩)
-      rw [hesc']
-      exact vBlankKids_of_noText kids hleaf hnt
+      rcases hr.1 with (h | h) | h
+      · rw [hesc'] at h; exact absurd h (by simp)
+      · have hnt : vHasTextKids kids = false := by simpa using h
+        refine Or.inl (Or.inl (Or.inr ⟨hraw, ?_⟩))
+        rw [hesc']
+        exact vBlankKids_of_noText kids hleaf hnt
+      · -- the single string of a repaired <textarea>
+        match kids, h, hc with
+        | [.text s], h, hc =>
+          simp only [vTextareaOneText, Bool.and_eq_true, decide_eq_true_eq] at h
+          refine Or.inr ⟨⟨⟨by simpa using h.1.1, h.1.2⟩, h.2⟩, ?_⟩
+          simpa [vTitleKids, vCleanKids, vCleanNode] using hc.2
     · match kids, hts, hc with
       | [], _, _ =>
         simp only [decide_eq_true_eq] at ht
         subst ht
-        exact Or.inl (Or.inr ⟨by decide, by simp [vBlankKids]⟩)
+        exact Or.inl (Or.inl (Or.inr ⟨by decide, by simp [vBlankKids]⟩))
       | [.text s], _, hc =>
-        refine Or.inr ⟨ht, ?_⟩
+        refine Or.inl (Or.inr ⟨ht, ?_⟩)
         simpa [vTitleKids, vCleanKids, vCleanNode] using hc.2
   | .seq ks, anc, hs, hc, hr => by
     simpa [vwfNode] using vwf_of_shape_kids ks anc (by simpa [vShapeNode] using hs)
@@ -358,14 +409,14 @@ theorem C06_view_structure_preserved_partial (v : List VNode) (hshape : vShapeKi
     parse (vToHtml v) = some (vStructureOf v) :=
   C06_view_structure_preserved v (vwf_of_shape_kids v [[]] hshape hclean hraw)
 
-/-- **the extended full statement is refuted the same way** (a `Vec<String>` child of `<textarea>`) -/
+/-- **the extended full statement is refuted the same way** (a `Vec<String>` child of `<script>`) -/
 theorem C06_view_raw_text_child_witness :
-    vShapeKids [[]] [.elem tTextarea [] [.vec [.text payloadTextarea]]] = true ∧
-    parse (vToHtml [.elem tTextarea [] [.vec [.text payloadTextarea]]]) =
-      some [.elem tTextarea [] [],
+    vShapeKids [[]] [.elem tScript [] [.vec [.text payloadScript]]] = true ∧
+    parse (vToHtml [.elem tScript [] [.vec [.text payloadScript]]]) =
+      some [.elem tScript [] [],
             .elem sImg [(['s','r','c'], ['x']),
                         (['o','n','e','r','r','o','r'], ['a','l','e','r','t','(','1',')'])] [],
-            .elem tTextarea [] []] := by
+            .elem tScript [] []] := by
   decide
 
 /-- the model prints the containers as tachys does: `Vec` ends in a marker, adjacent strings inside and
